@@ -699,6 +699,14 @@ func execPool(sc Scenario) *evid.Failure {
 					in[k].Value[j] ^= 0xff
 				}
 			}
+		case "resetself":
+			// an aliasing argument: the message's own option list handed back to it (what
+			// SetupGet(path, token, m.Options()...) does too); the list stays what it was
+			msg.ResetOptionsTo(msg.Options())
+		case "cloneself":
+			if err := msg.Clone(msg); err != nil {
+				return fail("error", "Clone onto itself: %v", err)
+			}
 		case "clone":
 			c := p.AcquireMessage(context.Background())
 			if err := msg.Clone(c); err != nil {
